@@ -349,3 +349,5 @@ def check(run):
         check_immutability(run, f, cfg)
     run.assumptions.append("not decided: that a live engine returns the same rows for the inline and the parameterised form (engine typing of literals vs bound parameters)")
     run.assumptions.append("value_to_string of the rendering backend is the backend's literal syntax (C03)")
+    run.delegate("C01", "the parameterised form stands for the inline one only if the collecting writer binds every value it is handed, once, under its own placeholder",
+                 only_rules={"R1", "R2", "R3", "R4", "R5", "R6", "R7", "R9"})
